@@ -11,7 +11,7 @@ func VP_C15_crash() {
 	K, S := 1+vp.Choice(2), 5
 	vpCoordLimit = 2
 	if vp.Tier() == 1 {
-		K, S = 1+vp.Choice(2), 7 // (three live chunks did not finish inside the thorough budget)
+		K, S = 1+vp.Choice(2), 6 // (three live chunks, and seven sectors, did not finish inside the thorough budget)
 		vpCoordLimit = 3
 	}
 	chunks := vpArbitraryState(K, S)
@@ -42,7 +42,7 @@ func VP_C15_crash() {
 	}
 	ti := vp.Choice(nc)
 	x, z := vpCoords[ti][0], vpCoords[ti][1]
-	lens := []int{1, 4093, 4092, 8189}[:3+vp.Tier()] // one sector, two, exactly one, (thorough) three
+	lens := []int{1, 4093, 4092, 8189}[:3] // one sector, two, exactly one
 	n := lens[vp.Choice(len(lens))]
 	data := make([]byte, n)
 	data[0], data[n-1] = vp.Byte(), vp.Byte()
